@@ -334,7 +334,8 @@ class Circuit:
     def get_or_add_fork(self, name):
         return self.forks[name] if name in self.forks else Node(self, name)
 
-    def remove_dangling_nodes(self, root_node:Node):
+    def remove_dangling_nodes(self, root_node:Node, within=None):
+        if within is not None and root_node not in within: return
         if len([l for l in root_node.outs if l is not None]) > 0: return
         lines = [l for l in root_node.ins if l is not None]
         drivers = [l.driver for l in lines]
@@ -342,7 +343,7 @@ class Circuit:
         for l in lines:
             l.remove()
         for d in drivers:
-            self.remove_dangling_nodes(d)
+            self.remove_dangling_nodes(d, within)
 
     def eliminate_1to1_forks(self):
         """Removes all forks that drive only one node.
@@ -431,8 +432,8 @@ class Circuit:
             ll.reader.ins[ll.reader_pin] = ll
         for l, ll in zip(impl_out_lines, node_out_lines):  # connect outputs
             if ll is None:
-                if l.driver in node_map:
-                    self.remove_dangling_nodes(node_map[l.driver])
+                if l.driver in node_map:  # only clean up what was copied in, never ports or other nodes of the main circuit.
+                    self.remove_dangling_nodes(node_map[l.driver], within=set(node_map.values()))
                 continue
             if len(l.reader.outs) > 0:  # output is also read by impl. circuit, connect to fork.
                 ll.driver = node_map[l.reader]
